@@ -158,6 +158,12 @@ func (p *Protocol) downloadBlockFromPeerOld(height int64, pid peer.ID) (*types.B
 		return nil, err
 	}
 	defer stream.Close()
+	// the request timeout also bounds the exchange on the stream: without a deadline a peer
+	// that accepts the stream and never answers blocks this height's worker, and with it the
+	// whole download task, forever
+	if deadline, ok := ctx.Deadline(); ok {
+		_ = stream.SetDeadline(deadline)
+	}
 	blockReq := types.MessageGetBlocksReq{
 		Message: &types.P2PGetBlocks{
 			StartHeight: height,
